@@ -117,6 +117,11 @@ func (x *Exec) afterCall(s *State, f *Frame, in ssa.Instruction, res []Value) []
 	switch len(res) {
 	case 1:
 		bind["ret"] = res[0]
+		if tv, ok := res[0].(TupleVal); ok {
+			for i, r := range tv {
+				bind[fmt.Sprintf("ret%d", i)] = r
+			}
+		}
 	default:
 		for i, r := range res {
 			bind[fmt.Sprintf("ret%d", i)] = r
